@@ -303,6 +303,52 @@ impl GameEnv {
             merchant::Config::from_parts(clone_kp(m), m.revocation_commitment_parameters().clone(), rp)
         };
 
+        // same key pair with ONE field of the public key replaced by another valid group element (the secret
+        // half and every other field untouched): g1, Y_i, g2, X~, Y~_i; and a RELATED key (x + 1: X1 + g1,
+        // X~ + g2, everything else shared)
+        let key_fields: Vec<String> = {
+            let mut v = vec!["pk.g1".to_string(), "pk.g2".to_string(), "pk.x2".to_string()];
+            for i in 0..5 { v.push(format!("pk.y1s.{}", i)); v.push(format!("pk.y2s.{}", i)); }
+            v
+        };
+        let kt = Tree::of(m.signing_keypair());
+        let shifted = |b: &[u8]| -> Vec<u8> {
+            if b.len() == 48 {
+                G1Affine::from(G1Projective::from(indep::g1(b).unwrap()) + G1Projective::generator()).to_compressed().to_vec()
+            } else {
+                G2Affine::from(G2Projective::from(indep::g2(b).unwrap()) + G2Projective::generator()).to_compressed().to_vec()
+            }
+        };
+        let with_key_bytes = |b: &[u8]| -> Option<merchant::Config> {
+            let kp: KeyPair<5> = bincode::deserialize(b).ok()?;
+            Some(merchant::Config::from_parts(kp, m.revocation_commitment_parameters().clone(), m.range_constraint_parameters().clone()))
+        };
+        let mut key_variants: Vec<(String, bool, merchant::Config)> = vec![];
+        for f in &key_fields {
+            let l = kt.get(f).unwrap_or_else(|| panic!("key pair layout: no leaf {}", f));
+            let mut b = kt.bytes.clone();
+            let new = shifted(&kt.bytes[l.off..l.off + l.len]);
+            b[l.off..l.off + l.len].copy_from_slice(&new);
+            if let Some(c) = with_key_bytes(&b) { key_variants.push((format!("public key field {} replaced", f), l.len == 48, c)); }
+        }
+        {
+            // related key: x' = x + 1
+            let mut b = kt.bytes.clone();
+            let lx = kt.get("sk.x").expect("sk.x");
+            let x = indep::sc(&kt.bytes[lx.off..lx.off + 32]).unwrap() + Scalar::one();
+            b[lx.off..lx.off + 32].copy_from_slice(&x.to_bytes());
+            let g1 = G1Projective::from(indep::g1(kt.bytes_at("pk.g1").unwrap()).unwrap());
+            let g2 = G2Projective::from(indep::g2(kt.bytes_at("pk.g2").unwrap()).unwrap());
+            let l1 = kt.get("sk.x1").expect("sk.x1");
+            let x1 = G1Projective::from(indep::g1(&kt.bytes[l1.off..l1.off + 48]).unwrap()) + g1;
+            b[l1.off..l1.off + 48].copy_from_slice(&G1Affine::from(x1).to_compressed());
+            let l2 = kt.get("pk.x2").expect("pk.x2");
+            let x2 = G2Projective::from(indep::g2(&kt.bytes[l2.off..l2.off + 96]).unwrap()) + g2;
+            b[l2.off..l2.off + 96].copy_from_slice(&G2Affine::from(x2).to_compressed());
+            if let Some(c) = with_key_bytes(&b) { key_variants.push(("related key pair: signing secret x + 1, same g1, g2, Y_i, Y~_i".to_string(), false, c)); }
+        }
+        assert_eq!(key_variants.len(), 14, "every key variant decodes");
+
         // ---- establish
         let cbv = 1000u64;
         let mbv = 77u64;
@@ -328,6 +374,10 @@ impl GameEnv {
         out.push(base);
         let mut push = |mut e: Value| { e["challenge_changed"] = json!(e["challenge"] != c0); out.push(e); };
         push(est("key", "fresh key pair".into(), true, &other_key, &cid, cbv, mbv, &ctx, &mut rng));
+        for (name, g1_half, c) in &key_variants {
+            // the establish equations use only the G1 half; the G2 half is bound through the challenge alone
+            push(est("key", name.clone(), *g1_half, c, &cid, cbv, mbv, &ctx, &mut rng));
+        }
         let cidb = cid.to_bytes();
         let bits: Vec<usize> = if thorough { (0..256).collect() } else { vec![0, 1, 7, 8, 63, 64, 128, 200, 252, 253, 254, 255] };
         for bit in bits {
@@ -380,6 +430,9 @@ impl GameEnv {
         out.push(base);
         let mut push = |mut e: Value| { e["challenge_changed"] = json!(e["challenge"] != c0); out.push(e); };
         push(payv("key", "fresh key pair".into(), true, &other_key, &nonce_b, amount, &pctx, &mut rng));
+        for (name, _, c) in &key_variants {
+            push(payv("key", name.clone(), true, c, &nonce_b, amount, &pctx, &mut rng));
+        }
         push(payv("range_parameters", "fresh".into(), true, &other_range, &nonce_b, amount, &pctx, &mut rng));
         push(payv("range_parameters", "same key, digit signatures 0 and 1 swapped".into(), false, &swapped_range, &nonce_b, amount, &pctx, &mut rng));
         push(payv("range_parameters", "same key, digit signature 5 re-randomised".into(), false, &rerand_range, &nonce_b, amount, &pctx, &mut rng));
